@@ -1,6 +1,8 @@
 package main
 
 import (
+	"fmt"
+	"os"
 	"go/token"
 	"go/types"
 	"sort"
@@ -128,6 +130,36 @@ func (e *Engine) ownership(v ssa.Value, fn *ssa.Function, seen map[ssa.Value]boo
 		}
 		g := x.Call.StaticCallee()
 		if g == nil {
+			// a generic helper applying a function it was given (mapSlice(in, f)): judged by what every caller passes
+			if p, isP := strip(x.Call.Value).(*ssa.Parameter); isP && !x.Call.IsInvoke() {
+				idx := -1
+				for i, q := range p.Parent().Params {
+					if q == p {
+						idx = i
+					}
+				}
+				callers := e.callersOf(p.Parent())
+				if os.Getenv("MINICHECK_TRACE") != "" {
+					fmt.Println("TRACE ownership dyn", e.fname(p.Parent()), "idx", idx, "callers", len(callers))
+				}
+				if idx >= 0 && len(callers) > 0 {
+					for _, c := range callers {
+						if idx >= len(c.Common().Args) {
+							return "alias", "result of a dynamic call"
+						}
+						fs := e.closuresOf(c.Common().Args[idx], nil, 0)
+						if len(fs) == 0 {
+							return "alias", "result of a function value of unknown origin"
+						}
+						for _, h := range fs {
+							if k, why := e.producesFresh(h, seen); k != "fresh" {
+								return k, why
+							}
+						}
+					}
+					return "fresh", ""
+				}
+			}
 			return "alias", "result of a dynamic call"
 		}
 		if isPtrHelper(g) {
@@ -395,4 +427,34 @@ func c14R3(e *Engine) {
 		}
 	}
 	e.minCount("R3", 12)
+}
+
+// producesFresh: every reference-typed result of h is owned by the caller (h is a conversion/copy judged on its own, a
+// value→pointer helper, or its returns are fresh).
+func (e *Engine) producesFresh(h *ssa.Function, seen map[ssa.Value]bool) (string, string) {
+	if h == nil {
+		return "alias", "an unknown function"
+	}
+	if ok, _ := isConversion(e, h); ok || isMapCopyFunc(h) {
+		return "fresh", ""
+	}
+	if isPtrHelper(h) {
+		if _, isPtr := h.Signature.Results().At(0).Type().Underlying().(*types.Pointer); isPtr {
+			return "fresh", ""
+		}
+	}
+	if h.Blocks == nil || e.fnRole(h) == "" {
+		return "alias", "result of " + h.String()
+	}
+	for _, r := range returnsOf(h) {
+		for _, rv := range retVals(r) {
+			if !isRefType(rv.Type()) {
+				continue
+			}
+			if k, why := e.ownership(rv, h, seen); k != "fresh" {
+				return k, why + " (via " + e.fname(h) + ")"
+			}
+		}
+	}
+	return "fresh", ""
 }
